@@ -1299,6 +1299,25 @@ fn run_inner(sc: &Scenario, root: &Utf8PathBuf, opts: &RunOpts, guard_limit: u64
         (0..nent).map(|i| snapshot_tree(root.join(format!("jail/e{}", i)).as_std_path())).collect();
     let jail_before = jail_digest(root, nent);
 
+    // direct calls of filestore operations by a local user (script entries `fsfault` whose op is
+    // "call:<action>:<hex first name>:<hex second name>"): executed on the entity's filestore before
+    // the exchange starts; what they may touch is judged by the sentinel digest like everything else
+    for e in sc.script.iter() {
+        if let Entry::FsFault { ent, op, .. } = e {
+            if let Some(rest) = op.strip_prefix("call:") {
+                let parts: Vec<&str> = rest.split(':').collect();
+                if parts.len() == 3 && *ent < nent {
+                    let action: u8 = parts[0].parse().unwrap_or(255);
+                    let dec = |h: &str| crate::scenario::unhex(h).ok().and_then(|b| String::from_utf8(b).ok()).unwrap_or_default();
+                    let root_s = root.to_string();
+                    let sub = |n: String| n.replace("{ROOTX}", &format!("{}/jail/e{}x", root_s, ent)).replace("{ROOT}", &format!("{}/jail/e{}", root_s, ent)).replace("{JAIL}", &format!("{}/jail", root_s));
+                    let (first, second) = (sub(dec(parts[1])), sub(dec(parts[2])));
+                    direct_filestore_call(&root.join(format!("jail/e{}", ent)), action, &first, &second);
+                }
+            }
+        }
+    }
+
     let rt = tokio::runtime::Builder::new_current_thread()
         .enable_time()
         .start_paused(true)
@@ -1755,6 +1774,28 @@ fn run_inner(sc: &Scenario, root: &Utf8PathBuf, opts: &RunOpts, guard_limit: u64
         },
         cut_by_guard,
     )
+}
+
+/// one filestore operation called directly (as a local user of the library would)
+fn direct_filestore_call(fs_root: &Utf8PathBuf, action: u8, first: &str, second: &str) {
+    use cfdp_core::filestore::{FileStore, NativeFileStore};
+    let fs = NativeFileStore::new(fs_root);
+    let _ = std::panic::catch_unwind(std::panic::AssertUnwindSafe(|| match action {
+        0 => drop(fs.create_file(first)),
+        1 | 7 => drop(fs.delete_file(first)),
+        2 => drop(fs.rename_file(first, second)),
+        3 => drop(fs.append_file(first, second)),
+        4 => drop(fs.replace_file(first, second)),
+        5 => drop(fs.create_directory(first)),
+        6 | 8 => drop(fs.remove_directory(first)),
+        9 => drop(fs.open(first, std::fs::OpenOptions::new().create(true).write(true).truncate(true)).map(|mut f| {
+            use std::io::Write;
+            let _ = f.write_all(b"written-by-a-direct-open");
+        })),
+        10 => drop(fs.open(first, std::fs::OpenOptions::new().read(true))),
+        11 => drop(fs.get_size(first)),
+        _ => drop(fs.list_directory(first)),
+    }));
 }
 
 /// digest of everything in <root>/jail outside the entity roots
